@@ -236,6 +236,10 @@ func PanicText(f func()) (panicked bool, runtimeErr bool, msg string) {
 	return
 }
 
+// KnownText: (engine) the text with parts that depend on symbolic data shown as "<?>" / '?';
+// natively the string itself.
+func KnownText(s string) string { return s }
+
 // Quiesce lets other goroutines run; natively it sleeps briefly and reports 0
 // (goroutine leaks are confirmed by the replay driver with a goroutine dump).
 func Quiesce() int { return quiesceNative() }
